@@ -60,6 +60,15 @@ def definitions(tier: str, seed: int, want: dict[str, int]) -> list[dict]:
         ast = gen.random_start_block(rng)
         defs.append({"name": f"sblk{i}", "kind": "start-block", "ast": ast,
                      "tags": sorted(gen.tags_of(ast) | {"beyond-F", "start-block"})})
+    if want.get("bunched", 0):
+        fam = gen.bunched_family()
+        n = want["bunched"]
+        if n < len(fam):
+            start = (seed * n) % len(fam)
+            fam = (fam + fam)[start:start + n]
+        for i, ast in enumerate(fam):
+            defs.append({"name": f"bunched{i}", "kind": "bunched", "ast": ast,
+                         "tags": sorted(gen.tags_of(ast) | {"beyond-F", "bunched"})})
     if want.get("start-block", 0):
         for i, ast in enumerate(gen.break_xor_start_block_family()):
             defs.append({"name": f"bxsb{i}", "kind": "start-block", "ast": ast,
@@ -110,6 +119,8 @@ def s2_cases(defs: list[dict], seed: int, per_def: int = 2, cap: int = 300, **fl
     cases = []
     stats = {"S2-eq": 0, "S2-neq": 0}
     for d in defs:
+        if d["kind"] not in ("corpus", "core-exh", "core-rand", "edge"):
+            continue    # partial evidence is generated inside F and the corpus only
         rng = random.Random(f"s2-{seed}-{d['name']}")
         full = complete_jobs(d["ast"], 3, cap)
         if full is None or len(full) < 3:
